@@ -49,7 +49,7 @@ CS == INSTANCE ConstraintSystem WITH
         FAdd <- SAdd, FSub <- SSub, FMul <- SMul, FNeg <- SNeg, FInt <- SInt, EdD <- 7
 
 EnvInt(name, default) == IF name \in DOMAIN IOEnv THEN atoi(IOEnv[name]) ELSE default
-Seed == EnvInt("VERIF_SEED", 1)
+Seed == EnvInt("VERIF_SEED", 1) % 1000
 NChal == EnvInt("SND_NCHAL", 2)        \* sampled challenge tuples per assignment
 NDelta == EnvInt("SND_NDELTA", 2)      \* overwritten values per witness / position
 
@@ -278,15 +278,25 @@ Budget == 5 * N + 6
 
 \* completeness of the model (what makes its verifier a usable oracle)
 Complete == (Leaf /\ result.truth) => result.count = Cardinality(OutsideH)
-\* soundness: a forced proof of a false statement passes on few challenges
-SZBudget == (Leaf /\ ~result.truth) => result.count <= Budget
-\* the prover's floor test is exact (C05a): len > 7n iff the statement is false
-FloorExact == Leaf => ((result.qlen > 7 * N) = ~result.truth)
+\* an honest quotient is never flagged and has the length Sizes predicts
+FloorSound == (Leaf /\ result.truth) => result.qlen <= 4 * N + 7
+(* A false statement can still yield a numerator divisible by Z_H when the   *)
+(* EARLIER challenges collide (the kappa-weighted atoms of a row cancel, or  *)
+(* the grand product closes for a broken copy constraint): probability about *)
+(* degree/|F|, negligible over the real field, a few percent over F_97.      *)
+(* Those leaves are reported ("COLLISION"): the forced proof then is a valid *)
+(* proof of the false statement -- the soundness error of the protocol       *)
+(* itself.  Everywhere else the identity fails on the domain and then:       *)
+Collision == Leaf /\ ~result.truth /\ result.qlen <= 7 * N
+\* soundness: the forced proof passes on at most the Schwartz-Zippel budget of z
+SZBudget == (Leaf /\ ~result.truth /\ ~Collision) => result.count <= Budget
+\* a collision is all-or-nothing: the proof is then accepted everywhere
+CollisionIsValidProof == Collision => result.count = Cardinality(OutsideH)
 \* the family is what it claims: the honest member is true, overwrites are false
-FamilyShape == phase = "leaf" =>
-                 /\ (member.kind = "honest") = result.truth
+FamilyShape == phase = "leaf" => ((member.kind = "honest") = result.truth)
 Report == phase = "leaf" =>
-            PrintT("SND|" \o member.kind \o "|" \o ToString(sample) \o "|" \o result.status
+            PrintT("SND|" \o member.kind \o "|" \o ToString(sample) \o "|"
+                   \o (IF Collision THEN "collision" ELSE result.status)
                    \o "|" \o ToString(result.truth) \o "|" \o ToString(result.count)
                    \o "|" \o ToString(result.qlen))
 =============================================================================
